@@ -683,7 +683,7 @@ def run(ctx):
     for case in load_corpus(ctx):
         replay(ctx, case)
     rng = ctx.rng
-    batch = gen_random(ctx, rng, ctx.scale(4000, 40000))
+    batch = gen_random(ctx, rng, ctx.scale(4000, 30000))
     check_cases(ctx, batch)
     for c, r in batch[:3]:
         ctx.sample(dict(c, actions=r['actions'], end=r['main']))
@@ -701,7 +701,7 @@ def run(ctx):
     for (n, k, c) in scopes:
         for inject in injections:
             for sf in ([False, True] if (thorough and inject is None) else [False]):
-                res, whole = enumerate_scope(ctx, n, k, c, sf, inject, ctx.scale(400, 2000))
+                res, whole = enumerate_scope(ctx, n, k, c, sf, inject, ctx.scale(400, 600))
                 total += len(res)
                 report.append(['%d items x %d tasks, concurrency %d, inject %s%s' % (n, k, c, inject, ', source raises' if sf else ''),
                                len(res), 'complete' if whole else 'capped'])
